@@ -137,6 +137,8 @@ func runC19(r *engine.Run) {
 	r.Rule("DOM-inlevel", "the prover reads the element after an even index only under the strict test that this element still lies inside the current level (index + 1 < level start + level size, with the level size the walk itself uses)")
 	r.Rule("DEP-offered", "verification recomputes the root from the offered leaf hash: VerifyMerklePath starts its running hash from its hash argument and compares the result with its root argument; VerifyPath hands it GetHash() of the offered node, the offered path and the tree's own root (a verifier that starts from the stored leaf only checks membership, so a path proves every leaf)")
 	r.Rule("AGREE-shape", "ComputeTree and SetTree establish the same three fields from computeSize; a path has levels - 1 elements; the root is the last element of the tree")
+	r.Rule("FRESH-tree", "GetTree hands out the node slice and SetTree installs the caller's slice without copying, so a method that stores nodes element by element (ComputeTree) assigns the tree field only from a make: recomputing never writes into memory an exported or loaded tree still uses")
+	r.Rule("DOM-atomic", "in SetTree no store to a receiver field can be followed by an error return: a rejected load leaves the tree (nodes, leaf count, levels) exactly as it was")
 	r.NotDec = append(r.NotDec, "that paths verify for every leaf count and index and do not verify for another leaf (index arithmetic over runtime n, idx: value-level)", "collision resistance of the hash")
 	verify := r.Fn("AGREE-pairing", pkgUtil, "", "VerifyMerklePath")
 	build := r.Fn("AGREE-pairing", pkgUtil, "MerkleTree", "ComputeTree")
@@ -149,6 +151,8 @@ func runC19(r *engine.Run) {
 	c19Progression(r, verify, build, prove, size)
 	c19Shape(r, build)
 	c19Offered(r, verify)
+	c19FreshTree(r, "FRESH-tree")
+	c19SetTreeAtomic(r, "DOM-atomic")
 }
 
 func mhashCalls(f *ssa.Function) []*ssa.Call {
@@ -515,4 +519,119 @@ func c19Offered(r *engine.Run, verify *ssa.Function) {
 		good = okHash && okPath && okRoot
 	})
 	r.Check(good, rule, fn(vp)+"|arguments", r.P.Pos(vp.Pos()), "VerifyMerklePath(offered.GetHash(), offered path, own root)", "VerifyPath does not verify the offered node's own hash with the offered path against the tree's root: the path would prove any leaf of the tree")
+}
+
+// c19FreshTree: the node slice of a tree is shared with whoever exported it
+// (GetTree returns the field) or loaded it (SetTree installs the caller's slice);
+// a method that stores elements into the slice therefore works on a slice it
+// allocated itself: every store to the tree field in such a method is a make.
+func c19FreshTree(r *engine.Run, rule string) {
+	get := r.Fn(rule, pkgUtil, "MerkleTree", "GetTree")
+	set := r.Fn(rule, pkgUtil, "MerkleTree", "SetTree")
+	shares := ""
+	if get != nil {
+		for _, ret := range engine.Returns(get) {
+			if len(ret.Results) == 1 {
+				if fld := fieldLoadOf(resultValue(ret, 0)); fld != nil && fld.Name() == "tree" {
+					shares = "GetTree returns the node slice itself"
+				}
+			}
+		}
+	}
+	if set != nil {
+		engine.Instrs(set, func(in ssa.Instruction) {
+			if st, ok := in.(*ssa.Store); ok {
+				if fld := engine.FieldOf(st.Addr); fld != nil && fld.Name() == "tree" {
+					if _, isP := stripCT(st.Val).(*ssa.Parameter); isP {
+						if shares != "" {
+							shares += " and "
+						}
+						shares += "SetTree installs the caller's slice"
+					}
+				}
+			}
+		})
+	}
+	n := 0
+	for _, f := range funcsOfPkg(r, pkgUtil) {
+		if recvNamed(f) != "MerkleTree" || len(f.Blocks) == 0 {
+			continue
+		}
+		// element stores into the tree field's slice
+		writes := false
+		engine.Instrs(f, func(in ssa.Instruction) {
+			if st, ok := in.(*ssa.Store); ok {
+				if ia, ok := st.Addr.(*ssa.IndexAddr); ok {
+					if fld := fieldLoadOf(ia.X); fld != nil && fld.Name() == "tree" {
+						writes = true
+					}
+				}
+			}
+		})
+		if !writes {
+			continue
+		}
+		o := ord{}
+		found := false
+		engine.Instrs(f, func(in ssa.Instruction) {
+			st, ok := in.(*ssa.Store)
+			if !ok {
+				return
+			}
+			if fld := engine.FieldOf(st.Addr); fld == nil || fld.Name() != "tree" {
+				return
+			}
+			found = true
+			n++
+			_, isMake := stripCT(st.Val).(*ssa.MakeSlice)
+			r.Check(isMake || shares == "", rule, o.next(fn(f)+"|tree buffer"), r.P.Pos(st.Pos()), "the slice written element by element is allocated by this method",
+				"the method writes the tree's nodes into a slice that is not freshly allocated while "+shares+": recomputing overwrites the nodes of an exported tree and of every tree loaded from it")
+		})
+		if !found {
+			n++
+			r.Check(shares == "", rule, fn(f)+"|tree buffer", r.P.Pos(f.Pos()), "no sharing", "the method writes elements into the existing node slice while "+shares)
+		}
+	}
+	if n < 1 {
+		r.Anchor(rule, fmt.Errorf("unresolved anchor: no method storing elements into MerkleTree.tree"))
+	}
+}
+
+// c19SetTreeAtomic: a rejected load leaves the tree as it was: in SetTree no
+// store to a receiver field can be followed by an error return.
+func c19SetTreeAtomic(r *engine.Run, rule string) {
+	f := r.Fn(rule, pkgUtil, "MerkleTree", "SetTree")
+	if f == nil {
+		return
+	}
+	n := 0
+	o := ord{}
+	var errRets []*ssa.Return
+	for _, ret := range engine.Returns(f) {
+		if len(ret.Results) == 1 && !nilConst(resultValue(ret, 0)) {
+			errRets = append(errRets, ret)
+		}
+	}
+	engine.Instrs(f, func(in ssa.Instruction) {
+		st, ok := in.(*ssa.Store)
+		if !ok {
+			return
+		}
+		fa, ok := st.Addr.(*ssa.FieldAddr)
+		if !ok || fa.X != ssa.Value(f.Params[0]) {
+			return
+		}
+		n++
+		bad := ""
+		for _, ret := range errRets {
+			if engine.ReachableAfter(st, ret) {
+				bad = r.P.Pos(ret.Pos())
+			}
+		}
+		r.Check(bad == "", rule, o.next(fn(f)+"|store "+engine.FieldOf(fa).Name()), r.P.Pos(st.Pos()), "no error return is reachable after the store",
+			"SetTree changes the receiver and can still reject the load (error return at "+bad+"): a tree that already holds data is left with the old nodes and the geometry of another leaf count, so its paths no longer verify against its root")
+	})
+	if n < 3 || len(errRets) < 1 {
+		r.Anchor(rule, fmt.Errorf("unresolved anchor: %d field stores / %d error returns in SetTree", n, len(errRets)))
+	}
 }
